@@ -12,16 +12,15 @@ CONSTANTS
   LogV = {}
   RefV = {}
   SuiV = {}
-  StageFolds = FALSE
-  MaxOps = 6
+  StageFolds = TRUE
+  MaxOps = 4
   MaxDepth = 3
-  MaxCommits = 2
-  Export = "all"
+  MaxCommits = 1
+  Export = "none"
 VIEW View
 INVARIANT ReadsArePlainMap
 INVARIANT StageIsCanonical
 INVARIANT SideIsPlainJournal
 INVARIANT ContentsWellFormed
 INVARIANT ReopenReadsBack
-INVARIANT ExportAll
 CHECK_DEADLOCK FALSE
